@@ -9,8 +9,9 @@ R-C22.2  GuppyStructObject.__setattr__ stores a field only when not frozen (rais
 R-C22.3  GuppyObject._use_wire raises iff already used and not copyable, records the use
          otherwise; nobody else reads `_wire` or resets `_used`.
 R-C22.5  the leak registry refers to its entries strongly (c22_registry.py).
-R-C22.4  objects of non-droppable type are registered on creation, and trace_function raises
-         when some are left before it sets the outputs.
+R-C22.4  objects of non-droppable type are registered on creation; `trace_function`, interpreted as a whole with recorder
+         tokens, raises a GuppyError and never sets the outputs when the traced function leaves something in the leak
+         registry, and sets them exactly once otherwise (c22_leak.py).
 """
 
 from __future__ import annotations
@@ -341,32 +342,35 @@ def run(ctx: Ctx) -> None:
         ctx.check(not bad, "R-C22.4", f"{init.qualname}#register-undroppable", f"{init.module.rel}:{n.lineno}",
                   {"guards": [(ast.unparse(e), p) for e, p in gs], "missed": bad},
                   "a freshly created non-droppable comptime value is not registered for the leak check")
-    # trace_function: raise when unused_undroppable_objs non-empty, before set_outputs
-    gtf = CFG(tf.node)
-    leak_tests = [n for n in gtf.nodes if n.kind == "test" and n.ast is not None and "unused_undroppable_objs" in ast.unparse(n.ast)]
-    ctx.floor("R-C22.4", "leak test in trace_function", len(leak_tests), 1)
-    leak_if = [n for n in walk_no_nested(tf.node) if isinstance(n, ast.If) and "unused_undroppable_objs" in ast.unparse(n.test)]
-    good = False
-    facts = []
-    for n in leak_if:
-        neg = isinstance(n.test, ast.UnaryOp) and isinstance(n.test.op, ast.Not)
-        branch = n.orelse if neg else n.body
-        mr = bool(branch) and must_raise(branch)
-        cls = sorted({raised_class(r)[0] for b in branch for r in ast.walk(b) if isinstance(r, ast.Raise)})
-        facts.append({"test": ast.unparse(n.test), "must_raise": mr, "raises": cls})
-        plain = ast.unparse(n.test.operand if neg else n.test)
-        if mr and cls and set(cls) <= {"GuppyError", "GuppyComptimeError"} and plain.endswith("unused_undroppable_objs"):
-            good = True
-    ctx.check(good, "R-C22.4", f"{tf.qualname}#leak-raises", tf.where, facts,
-              "a comptime function that leaks a non-droppable value (e.g. a qubit) is compiled instead of rejected")
-    # the leak test dominates set_outputs
-    so_nodes = [n for n in gtf.nodes if n.ast is not None and n.kind == "stmt" and any(
-        isinstance(c, ast.Call) and isinstance(c.func, ast.Attribute) and c.func.attr == "set_outputs" for c in ast.walk(n.ast))]
-    ctx.floor("R-C22.4", "set_outputs calls in trace_function", len(so_nodes), 1)
-    for i, n in enumerate(so_nodes):
-        dom = gtf.dominated_by(n, lambda m: m.kind == "test" and m.ast is not None and "unused_undroppable_objs" in ast.unparse(m.ast))
-        ctx.check(dom, "R-C22.4", f"{tf.qualname}#leak-check-before-set_outputs[{i}]", f"{tf.module.rel}:{n.ast.lineno}",
-                  {"dominated": dom}, "outputs of a comptime function are set on a path that skipped the leak check")
+    from . import c22_leak
+    if not c22_leak.run(ctx):
+        # fallback (trace_function not interpretable): an `if <registry>: raise` test that dominates set_outputs
+        # trace_function: raise when unused_undroppable_objs non-empty, before set_outputs
+        gtf = CFG(tf.node)
+        leak_tests = [n for n in gtf.nodes if n.kind == "test" and n.ast is not None and "unused_undroppable_objs" in ast.unparse(n.ast)]
+        ctx.floor("R-C22.4", "leak test in trace_function", len(leak_tests), 1)
+        leak_if = [n for n in walk_no_nested(tf.node) if isinstance(n, ast.If) and "unused_undroppable_objs" in ast.unparse(n.test)]
+        good = False
+        facts = []
+        for n in leak_if:
+            neg = isinstance(n.test, ast.UnaryOp) and isinstance(n.test.op, ast.Not)
+            branch = n.orelse if neg else n.body
+            mr = bool(branch) and must_raise(branch)
+            cls = sorted({raised_class(r)[0] for b in branch for r in ast.walk(b) if isinstance(r, ast.Raise)})
+            facts.append({"test": ast.unparse(n.test), "must_raise": mr, "raises": cls})
+            plain = ast.unparse(n.test.operand if neg else n.test)
+            if mr and cls and set(cls) <= {"GuppyError", "GuppyComptimeError"} and plain.endswith("unused_undroppable_objs"):
+                good = True
+        ctx.check(good, "R-C22.4", f"{tf.qualname}#leak-raises", tf.where, facts,
+                  "a comptime function that leaks a non-droppable value (e.g. a qubit) is compiled instead of rejected")
+        # the leak test dominates set_outputs
+        so_nodes = [n for n in gtf.nodes if n.ast is not None and n.kind == "stmt" and any(
+            isinstance(c, ast.Call) and isinstance(c.func, ast.Attribute) and c.func.attr == "set_outputs" for c in ast.walk(n.ast))]
+        ctx.floor("R-C22.4", "set_outputs calls in trace_function", len(so_nodes), 1)
+        for i, n in enumerate(so_nodes):
+            dom = gtf.dominated_by(n, lambda m: m.kind == "test" and m.ast is not None and "unused_undroppable_objs" in ast.unparse(m.ast))
+            ctx.check(dom, "R-C22.4", f"{tf.qualname}#leak-check-before-set_outputs[{i}]", f"{tf.module.rel}:{n.ast.lineno}",
+                      {"dominated": dom}, "outputs of a comptime function are set on a path that skipped the leak check")
 
     # ------------------------------------------------------------ R-C22.5 leak registry holds strong references
     from . import c22_registry
